@@ -51,17 +51,15 @@ theorem iterFrames_all {s : State} (h : InvK s) (last : Option Nat)
     exact decide_eq_decide.2 this
 
 /-- the context range `[ctx, ctx+1)` / `(ctx‖last, ctx+1)` selects exactly the keys of `c` -/
-theorem ctx_range_exact {c c' i : Nat} (last : Option Nat) (hc : c + 1 < idBound)
+theorem ctx_range_exact {c c' i : Nat} (last : Option Nat) (hcb : c < idBound)
     (hc' : c' < idBound) (hi : i < idBound) (hl : ∀ l, last = some l → l < idBound) :
     ((ctxLower c last).lowerOk (ctxKey c' i) &&
-      (Bound.excluded (ctxRangeEnd c)).upperOk (ctxKey c' i)) = true ↔
+      (ctxUpper c).upperOk (ctxKey c' i)) = true ↔
     c' = c ∧ (∀ l, last = some l → l < i) := by
-  have hcb : c < idBound := by omega
   have z : (0 : Nat) < idBound := by decide
-  have hend : ctxRangeEnd c = ctxKey (c + 1) 0 ++ [] → True := fun _ => trivial
-  -- upper bound: ctxKey c' i < be 16 (c+1)  ↔  c' ≤ c
-  have hup : ctxKey c' i < ctxRangeEnd c ↔ c' < c + 1 := by
-    rw [ctxRangeEnd_of_lt hc]
+  -- upper bound: ctxKey c' i < be 16 (c+1)  ↔  c' ≤ c; open-ended for the last context id
+  have hup0 : ∀ (hc : c + 1 < idBound), ctxKey c' i < be 16 (c + 1) ↔ c' < c + 1 := by
+    intro hc
     unfold ctxKey
     constructor
     · intro hlt
@@ -85,9 +83,14 @@ theorem ctx_range_exact {c c' i : Nat} (last : Option Nat) (hc : c + 1 < idBound
       have := lt_append_of_lt_same_len (x := be 16 i) (y := []) (by simp [be_length])
         (be_lt hc' hc h)
       simpa using this
+  have hup : (ctxUpper c).upperOk (ctxKey c' i) = true ↔ c' < c + 1 := by
+    unfold ctxUpper
+    by_cases h1 : c + 1 < idBound
+    · simp only [h1, if_true, Bound.upperOk, decide_eq_true_eq]; exact hup0 h1
+    · simp only [h1, if_false, Bound.upperOk, true_iff]; omega
   cases last with
   | none =>
-    simp only [ctxLower, Bound.lowerOk, Bound.upperOk, Bool.and_eq_true, decide_eq_true_eq, hup]
+    simp only [ctxLower, Bound.lowerOk, Bool.and_eq_true, decide_eq_true_eq, hup]
     have hlo : be 16 c ≤ ctxKey c' i ↔ c ≤ c' := by
       rw [← List.not_lt]
       have : ctxKey c' i < be 16 c ↔ c' < c := by
@@ -118,7 +121,7 @@ theorem ctx_range_exact {c c' i : Nat} (last : Option Nat) (hc : c + 1 < idBound
     · rintro ⟨rfl, _⟩; exact ⟨Nat.le_refl _, Nat.lt_succ_self _⟩
   | some l =>
     have hlb := hl l rfl
-    simp only [ctxLower, Bound.lowerOk, Bound.upperOk, Bool.and_eq_true, decide_eq_true_eq, hup]
+    simp only [ctxLower, Bound.lowerOk, Bool.and_eq_true, decide_eq_true_eq, hup]
     have : be 16 c ++ be 16 l = ctxKey c l := rfl
     rw [this, ctxKey_lt_iff hcb hc' hlb hi]
     constructor
@@ -128,10 +131,10 @@ theorem ctx_range_exact {c c' i : Nat} (last : Option Nat) (hc : c + 1 < idBound
     · rintro ⟨rfl, h2⟩
       exact ⟨Or.inr ⟨rfl, h2 l rfl⟩, Nat.lt_succ_self _⟩
 
-/-- context-scoped scan: the stored frames of that context after `last-id`, in id order.
-    `c + 1 < 2^128`: the all-ones context id is excluded (known finding F12). -/
+/-- context-scoped scan: the stored frames of that context after `last-id`, in id order - for
+    every 128-bit context id, the all-ones id included (its range is open-ended; F12, fixed) -/
 theorem iterFrames_ctx {s : State} (h : InvK s) (c : Nat) (last : Option Nat)
-    (hc : c + 1 < idBound) (hl : ∀ l, last = some l → l < idBound) :
+    (hc : c < idBound) (hl : ∀ l, last = some l → l < idBound) :
     s.iterFrames (some c) last =
       (frames s).filter (fun f => inScope (some c) f && afterLast last f) := by
   apply eq_of_sorted_of_mem_iff (fun f : Frame => f.id)
@@ -299,10 +302,9 @@ def cut (limit : Option Nat) (l : List Frame) : List Frame :=
   | none => l
   | some n => l.take n
 
-/-- hypotheses under which the scans are exact: ids are 128-bit, and the scoped context is
-    not the all-ones id (F12) -/
+/-- hypotheses under which the scans are exact: ids are 128-bit -/
 structure WfRead (ctx last : Option Nat) : Prop where
-  ctx_ok : ∀ c, ctx = some c → c + 1 < idBound
+  ctx_ok : ∀ c, ctx = some c → c < idBound
   last_ok : ∀ l, last = some l → l < idBound
 
 theorem iterFrames_spec {s : State} (h : InvK s) {ctx last : Option Nat} (w : WfRead ctx last) :
